@@ -1,4 +1,4 @@
 from propcfg.tmplcommon import *
 
 CFG = dict(TMPL_C01)
-CFG["proof_modules"] = ["SafeHtml.Proofs.HtmlTokSim", "SafeHtml.Proofs.Layer3", "SafeHtml.Proofs.Layer3E2E", "SafeHtml.Proofs.Layer3Branch", "SafeHtml.Proofs.Layer3Calls", "SafeHtml.Proofs.Layer3Repeat", "SafeHtml.Proofs.Layer3Helpers", "SafeHtml.Proofs.Layer3Repeat2", "SafeHtml.Proofs.Layer3Derived", "SafeHtml.Proofs.Layer3Repeat3", "SafeHtml.Proofs.CspMono"]
+CFG["proof_modules"] = ["SafeHtml.Proofs.HtmlTokSim", "SafeHtml.Proofs.Layer3", "SafeHtml.Proofs.Layer3E2E", "SafeHtml.Proofs.Layer3Branch", "SafeHtml.Proofs.Layer3Calls", "SafeHtml.Proofs.Layer3Repeat", "SafeHtml.Proofs.Layer3Helpers", "SafeHtml.Proofs.Layer3Repeat2", "SafeHtml.Proofs.Layer3Derived", "SafeHtml.Proofs.Layer3Repeat3", "SafeHtml.Proofs.Layer3Repeat4", "SafeHtml.Proofs.CspMono"]
